@@ -264,6 +264,7 @@ func CheckC17Unit(run *harness.Run) ([]harness.Finding, map[string]interface{}, 
 	alpha = append(alpha, fop{Recv: true, H: 4}, fop{Recv: true, H: 2, Kind: 1}, fop{Recv: true, H: 2, Kind: 2}, fop{Recv: true, H: 3, Kind: 2})
 	maxLen := run.Pick(5, 6)
 	seqs, delivs, nontrivial, evicted := 0, 0, 0, 0
+	lagProbes := 0
 	var samples []interface{}
 	var rec func(prefix []fop, depth int)
 	rec = func(prefix []fop, depth int) {
@@ -371,13 +372,34 @@ func CheckC17Unit(run *harness.Run) ([]harness.Finding, map[string]interface{}, 
 			record(ops, r)
 		}
 	}
+	// many lag-and-sync episodes in a row: messages cached for a height the node then jumps over are discarded unread; after
+	// any number of such discards a message cached for the next height is still delivered when that height starts
+	{
+		ops, probes := LagEpisodes(run.Pick(1500, 6000))
+		r := runFilterOps(ops)
+		seqs++
+		delivs += r.delivs
+		if r.viol != "" {
+			// (the replay file keeps the whole sequence; the finding names the probe that failed)
+			short := ops
+			if len(short) > 12 {
+				short = ops[len(ops)-12:]
+			}
+			byRule[r.rule]++
+			path := harness.ReplayPath("C17", "lag-episodes")
+			harness.WriteJSON(path, map[string]interface{}{"property": "C17", "rule": r.rule, "detail": r.viol, "ops": ops})
+			findings = append(findings, harness.Finding{Prop: "C17", Rule: r.rule, Detail: fmt.Sprintf("%s — after %d cached messages had been discarded unread in lag-and-sync episodes (%d messages received so far); last operations: %v", r.viol, r.discarded(), len(r.msgs), short), Replay: path})
+		}
+		lagProbes = probes
+	}
 	cov := map[string]interface{}{
-		"evaluations":          seqs,
-		"distinct_nontrivial":  nontrivial,
-		"rule":                 fmt.Sprintf("operation sequences on the real RawMessageFilter + State with recording handlers per term: every sequence of length <= %d over a 13-letter alphabet (receive a peer message of height 1..4, the same with a handler that starts the next height while the batch is consumed, advance to height 1..3, a message of this node, messages of another instance), plus random sequences of length 5..200 over growing heights; non-trivial = at least one delivery observed; distinct by construction (enumeration / PRNG stream)", maxLen),
-		"samples":              samples,
-		"exhaustive":           true,
-		"exhaustive_sequences": exhaustiveSeqs,
+		"evaluations":                           seqs,
+		"lag_and_sync_episodes_probed_every_25": lagProbes,
+		"distinct_nontrivial":                   nontrivial,
+		"rule":                                  fmt.Sprintf("operation sequences on the real RawMessageFilter + State with recording handlers per term: every sequence of length <= %d over a 13-letter alphabet (receive a peer message of height 1..4, the same with a handler that starts the next height while the batch is consumed, advance to height 1..3, a message of this node, messages of another instance), plus random sequences of length 5..200 over growing heights; non-trivial = at least one delivery observed; distinct by construction (enumeration / PRNG stream)", maxLen),
+		"samples":                               samples,
+		"exhaustive":                            true,
+		"exhaustive_sequences":                  exhaustiveSeqs,
 		"exhaustive_sequences_at_boundary_heights_(2^31,2^32,2^63,2^64-1)": boundarySeqs,
 		"deliveries_judged": delivs,
 		"cached_messages_evicted_by_a_later_higher_height_(not_judged_for_loss)": evicted,
@@ -385,6 +407,48 @@ func CheckC17Unit(run *harness.Run) ([]harness.Finding, map[string]interface{}, 
 	}
 	fmt.Printf("C17 %s (filter level): sequences=%d (exhaustive %d) deliveries judged=%d\n", run.Tier, seqs, exhaustiveSeqs, delivs)
 	return findings, cov, nil
+}
+
+// LagEpisodes builds `n` episodes "two messages arrive for height h+2 while the node is at h, then the node is synced to h+3",
+// with a probe every 25 episodes: two messages for h+1, then the node starts h+1 (both must be delivered there).
+func LagEpisodes(n int) ([]fop, int) {
+	h := uint64(10)
+	ops := []fop{{H: h}}
+	probes := 0
+	for e := 0; e < n; e++ {
+		ops = append(ops, fop{Recv: true, H: h + 2}, fop{Recv: true, H: h + 2}, fop{H: h + 3})
+		h += 3
+		if e%25 == 24 || e == n-1 {
+			ops = append(ops, fop{Recv: true, H: h + 1}, fop{Recv: true, H: h + 1}, fop{H: h + 1})
+			h++
+			probes++
+		}
+	}
+	return ops, probes
+}
+
+// discarded: messages received for a future height that the node never started.
+func (r *frun) discarded() int {
+	n := 0
+	for _, m := range r.msgs {
+		if m.delivered == 0 && m.h < r.cur && m.curAtRecv < m.h {
+			n++
+		}
+	}
+	return n
+}
+
+// C17LagEpisodesFor runs the lag-and-sync episodes for another property's check (C12: no sequence of valid inputs disables the node).
+func C17LagEpisodesFor(run *harness.Run, prop, rule string) ([]harness.Finding, map[string]interface{}) {
+	ops, probes := LagEpisodes(run.Pick(1500, 6000))
+	r := runFilterOps(ops)
+	ev := map[string]interface{}{"lag_and_sync_episodes": run.Pick(1500, 6000), "probes": probes, "messages_received": len(r.msgs), "messages_discarded_unread": r.discarded(), "deliveries_judged": r.delivs}
+	if r.viol == "" {
+		return nil, ev
+	}
+	path := harness.ReplayPath(prop, "lag-episodes")
+	harness.WriteJSON(path, map[string]interface{}{"property": prop, "rule": rule, "detail": r.viol, "ops": ops})
+	return []harness.Finding{{Prop: prop, Rule: rule, Detail: fmt.Sprintf("after %d well-formed messages for heights the node then jumped over (ordinary lag followed by node sync, %d messages received in all) the future cache stopped working: %s", r.discarded(), len(r.msgs), r.viol), Replay: path}}, ev
 }
 
 func replayC17(run *harness.Run) int {
